@@ -44,7 +44,7 @@ class C01(Prop):
         'estimates left after the finite-difference rule); cells marked null assert only: no exception, '
         'shape, finiteness',
     )
-    examples = {'quick': 500, 'thorough': 12000}
+    examples = {'quick': 500, 'thorough': 9000}
     shrink = {'quick': True, 'thorough': True}
 
     def __init__(self):
